@@ -208,7 +208,7 @@ def compare(case, impl, model):
 
 
 def is_trivial(case, impl):
-    return impl in ("", "bad-case", ";st=0;alias=0") or impl.startswith(("CRASH", "panic", "HANG", "LOST", "RUNAWAY", "spawn-error", "tell-error"))
+    return impl in ("", "bad-case", ";st=0;alias=0") or impl.startswith(("CRASH", "panic", "HANG", "LOST", "RUNAWAY", "UNSTABLE", "spawn-error", "tell-error"))
 
 
 def tag(case, impl):
@@ -228,6 +228,9 @@ def oracle(case, impl, judge):
         f = impl.split()
         return (f"runaway re-delivery: delivery number {f[1]} happened although only {int(f[1]) - 1} are possible "
                 "(messages sent + Stash calls) - a message was delivered again without any Unstash; deliveries seen: " + " ".join(f[2:]))
+    if impl.startswith("UNSTABLE"):
+        return ("the same script, run again on an actor whose messages travel in recycled ReceiveContext objects, gave different "
+                "observations (state survives in a pooled context): " + impl[:300])
     if impl.startswith("LOST"):
         return "a message sent to the actor was never delivered although the mailbox was drained (" + impl + ")"
     if impl in ("CRASH deadline", "CRASH timeout-abort", "CRASH too-many-crashes"):
